@@ -26,7 +26,7 @@ const (
 
 // fieldNamedAddr: v is (a load of) the address of a field with this name
 // (used for the dispatcher's function-local batchProgress type).
-func loadsFieldNamed(structName, field string) func(ssa.Value) bool {
+func (c *Ctx) loadsFieldNamed(structName, field string) func(ssa.Value) bool {
 	return func(v ssa.Value) bool {
 		return ir.DerivesFrom(v, func(x ssa.Value) bool {
 			fa, ok := x.(*ssa.FieldAddr)
@@ -34,7 +34,7 @@ func loadsFieldNamed(structName, field string) func(ssa.Value) bool {
 				return false
 			}
 			f := ir.FieldOfAddr(fa)
-			if f == nil || f.Name() != field {
+			if f == nil || c.on(f) != field {
 				return false
 			}
 			t := fa.X.Type()
@@ -42,7 +42,7 @@ func loadsFieldNamed(structName, field string) func(ssa.Value) bool {
 				t = p.Elem()
 			}
 			n, ok := t.(*types.Named)
-			return ok && n.Obj().Name() == structName
+			return ok && c.on(n.Obj()) == structName
 		})
 	}
 }
@@ -50,7 +50,7 @@ func loadsFieldNamed(structName, field string) func(ssa.Value) bool {
 func runC12(c *Ctx) {
 	c.rule("C12.X1", "workDispatcher: on every path through one iteration of the dispatch loop a verdict is sent on a batch's errChan exactly when that batch is deleted from currentBatches, and at most once; Query allocates the verdict channel with capacity 1 so that send never blocks; the exit sweep answers every batch still registered", func() {
 		fn := c.fn(fnDispatch)
-		send := sendOn(loadsFieldNamed("batchProgress", "errChan"))
+		send := sendOn(c.loadsFieldNamed("batchProgress", "errChan"))
 		// currentBatches: the map whose values are *batchProgress
 		isBatches := func(v ssa.Value) bool {
 			m, ok := v.Type().Underlying().(*types.Map)
@@ -62,7 +62,7 @@ func runC12(c *Ctx) {
 				return false
 			}
 			n, ok := p.Elem().(*types.Named)
-			return ok && n.Obj().Name() == "batchProgress"
+			return ok && c.on(n.Obj()) == "batchProgress"
 		}
 		del := mapDelete(isBatches)
 		// the dispatch loop: innermost loop around the select that receives job results
@@ -156,7 +156,7 @@ func runC12(c *Ctx) {
 		fn := c.fn(fnDispatch)
 		sendNil := func(in ssa.Instruction) bool {
 			s, ok := in.(*ssa.Send)
-			return ok && loadsFieldNamed("batchProgress", "errChan")(s.Chan) && ir.IsNil(s.X)
+			return ok && c.loadsFieldNamed("batchProgress", "errChan")(s.Chan) && ir.IsNil(s.X)
 		}
 		remStore := func(in ssa.Instruction) bool {
 			st, ok := in.(*ssa.Store)
@@ -164,7 +164,7 @@ func runC12(c *Ctx) {
 				return false
 			}
 			fa, ok := st.Addr.(*ssa.FieldAddr)
-			if !ok || ir.FieldOfAddr(fa).Name() != "rem" {
+			if !ok || c.on(ir.FieldOfAddr(fa)) != "rem" {
 				return false
 			}
 			b, ok := st.Val.(*ssa.BinOp)
@@ -172,7 +172,7 @@ func runC12(c *Ctx) {
 		}
 		nilSends := find(fn, sendNil)
 		decs := find(fn, remStore)
-		remCmp := find(fn, binops(eqOps, loadsFieldNamed("batchProgress", "rem"), constIntIs(0)))
+		remCmp := find(fn, binops(eqOps, c.loadsFieldNamed("batchProgress", "rem"), constIntIs(0)))
 		c.guarded(fn, equalIs("batch.rem vs 0", remCmp, true), 1, "errChan <- nil", nilSends, 1, gDominate)
 		errF := c.field("query", "jobResult", "err")
 		nilCmps := find(fn, binops(eqOps, func(v ssa.Value) bool { return isLoadOfPath(v, errF) }, ir.IsNil))
@@ -188,7 +188,7 @@ func runC12(c *Ctx) {
 				return
 			}
 			fa, ok := st.Addr.(*ssa.FieldAddr)
-			if !ok || ir.FieldOfAddr(fa).Name() != "rem" {
+			if !ok || c.on(ir.FieldOfAddr(fa)) != "rem" {
 				return
 			}
 			if call, ok := st.Val.(*ssa.Call); ok && isBuiltin("len")(call) && loadsField(c.field("query", "batch", "requests"))(call.Call.Args[0]) {
@@ -203,7 +203,7 @@ func runC12(c *Ctx) {
 		errF := c.field("query", "jobResult", "err")
 		nilCmps := find(fn, binops(eqOps, func(v ssa.Value) bool { return isLoadOfPath(v, errF) }, ir.IsNil))
 		g := equalIs("result.err vs nil", nilCmps, true)
-		send := sendOn(loadsFieldNamed("batchProgress", "errChan"))
+		send := sendOn(c.loadsFieldNamed("batchProgress", "errChan"))
 		push := c.funcObj("container/heap", "Push")
 		jobF := c.field("query", "jobResult", "job")
 		repush := func(in ssa.Instruction) bool {
